@@ -380,3 +380,33 @@ Definition coerce_fw_to_int (t : fw) (x : Z) : tagged :=
 (* bool -> int: shift left by one, zero-extend; bool -> fixed width: zero-extend *)
 Definition bool_to_tagged (b : bool) : tagged := Short (if b then 2 else 0).
 Definition bool_to_z (b : bool) : Z := if b then 1 else 0.
+
+(* ------------------------------------------------------------------ error-value ("magic") calling convention *)
+(* A C primitive returning a native value signals an exception by returning the type's error value (rtypes.py
+   c_undefined: -113 for signed, 239 for unsigned, -113.0 for double) with the Python error indicator set.
+   The caller generated by mypyc (transform/exceptions.py) decides from the declared error_kind:
+   ERR_MAGIC: error iff result == magic;  ERR_MAGIC_OVERLAPPING: error iff result == magic && PyErr_Occurred(). *)
+Inductive errkind := ErrNever | ErrMagic | ErrFalse | ErrAlways | ErrMagicOverlapping.
+Inductive rkind := RFw (t : fw) | RFloat.
+Definition fw_magic (t : fw) : Z := match t with U8 => 239 | _ => -113 end.
+
+(* what the callee hands back: (returned word, error indicator set) *)
+Definition c_return (t : fw) (r : fres) : option (Z * bool) :=
+  match r with FOk v => Some (v, false) | FRaise _ => Some (fw_magic t, true) | FUndefined => None end.
+
+Inductive seen := SValue (v : Z) | SError | SErrorPathWithoutException.   (* the last one: NULL exception is propagated -> crash *)
+Definition caller_sees (k : errkind) (t : fw) (ret : Z * bool) : seen :=
+  let '(v, err) := ret in
+  match k with
+  | ErrMagic => if v =? fw_magic t then (if err then SError else SErrorPathWithoutException) else SValue v
+  | ErrMagicOverlapping => if (v =? fw_magic t) && err then SError else SValue v
+  | ErrNever => SValue v
+  | ErrFalse | ErrAlways => SError
+  end.
+Definition expected_seen (r : fres) : option seen :=
+  match r with FOk v => Some (SValue v) | FRaise _ => Some SError | FUndefined => None end.
+
+(* every native-returning primitive of int_ops.py / float_ops.py that can fail can also legitimately return the
+   magic value (full result range), so only ERR_MAGIC_OVERLAPPING (or ERR_NEVER for infallible ones) is sound *)
+Definition errkind_sound (k : errkind) : bool :=
+  match k with ErrMagicOverlapping | ErrNever => true | _ => false end.
